@@ -41,7 +41,7 @@ var AllKinds = []string{"bool", "incr", "string", "int", "float", "sopt", "iopt"
 
 var namePool = []string{"V", "Ver", "VERBOSE", "v", "ver", "verbose", "version", "x", "y", "z", "s", "str", "string", "l", "list", "m", "map",
 	"n", "num", "f", "flt", "q", "quiet", "é", "ü", "über", "日", "日本", "o", "out", "output", "t", "tag", "h", "he", "k", "key",
-	"dry-run", "dry", "no-v", "a-b-c", "2", "n1", "1st", "o.x", "a_b", "x:y"}
+	"dry-run", "dry", "no-v", "a-b-c", "2", "n1", "n01", "n001", "x2", "x10", "1st", "o.x", "a_b", "x:y"}
 
 var cmdPool = []string{"cmd", "sub", "run", "build", "Build", "RUN", "c", "日本", "log", "list", "str", "sub-cmd", "2", "a.b"}
 
@@ -112,11 +112,11 @@ func GenDef(r *rand.Rand, p *Profile) Cfg {
 	if p.Sugg > 0 {
 		for i := range c.Nodes {
 			if chance(r, p.Sugg) {
-				c.Nodes[i].Sugg = Ts("sarg", "run-all", "list")
+				c.Nodes[i].Sugg = Ts("sarg", "run-all", "list", "50%off")
 			}
 			if chance(r, p.Sugg/3) {
 				c.Nodes[i].DynFn = true
-				c.Nodes[i].DynOut = Ts("dyn", "a b")
+				c.Nodes[i].DynOut = Ts("dyn", "a b", "%s")
 			}
 		}
 	}
@@ -244,13 +244,13 @@ func GenDef(r *rand.Rand, p *Profile) Cfg {
 			o.Valid = Ts("val", "foo", "a")
 		}
 		if chance(r, p.Sugg) && kind != "bool" && kind != "incr" {
-			o.Sugg = Ts("dev", "devel", "prod")
+			o.Sugg = Ts("dev", "devel", "prod", "d%v")
 			if chance(r, 0.3) {
 				o.Sugg = Ts("dev=", "key=", "prod") // key= suggestions
 			}
 		}
 		if chance(r, p.Sugg/2) && kind != "bool" {
-			o.SuggFn = Ts("dyn1", "devfn", "prod")
+			o.SuggFn = Ts("dyn1", "devfn", "prod", "100%")
 		}
 		if chance(r, p.Sugg/3) || chance(r, p.Descs/3) {
 			o.ArgName = T("thing")
